@@ -180,6 +180,9 @@ pub enum Verdict {
     Done,
     Deadlock,
     StepLimit,
+    /// the running thread did not reach a yield point for seconds: it is blocked in the OS,
+    /// i.e. it waits on something the hooks do not cover (a lock taken without a hook, a sleep)
+    Stuck,
 }
 
 pub enum Policy {
@@ -468,6 +471,28 @@ impl Sched {
         }
     }
 
+    fn wait_verdict<'a>(&self, mut g: std::sync::MutexGuard<'a, Inner>) -> std::sync::MutexGuard<'a, Inner> {
+        let mut last = g.step;
+        let mut idle = 0;
+        while g.verdict == Verdict::Running {
+            let (g2, to) = self.cv.wait_timeout(g, std::time::Duration::from_millis(500)).unwrap();
+            g = g2;
+            if to.timed_out() {
+                if g.step == last {
+                    idle += 1;
+                    if idle >= 6 {
+                        g.verdict = Verdict::Stuck;
+                        g.status_at_verdict = g.status.clone();
+                    }
+                } else {
+                    idle = 0;
+                    last = g.step;
+                }
+            }
+        }
+        g
+    }
+
     /// controller: start the run once all workers have registered, wait for the verdict
     pub fn run(&self) -> Verdict {
         let mut g = self.inner.lock().unwrap();
@@ -475,9 +500,7 @@ impl Sched {
             g = self.cv.wait(g).unwrap();
         }
         self.dispatch(&mut g, None);
-        while g.verdict == Verdict::Running {
-            g = self.cv.wait(g).unwrap();
-        }
+        let g = self.wait_verdict(g);
         g.verdict
     }
 
@@ -489,9 +512,7 @@ impl Sched {
         }
         g.verdict = Verdict::Running;
         self.dispatch(&mut g, None);
-        while g.verdict == Verdict::Running {
-            g = self.cv.wait(g).unwrap();
-        }
+        let g = self.wait_verdict(g);
         g.verdict
     }
 
